@@ -59,7 +59,7 @@ type writerSealer interface {
 func c08HashSub() *engine.Sub {
 	return &engine.Sub{
 		Name: "cid-arithmetic",
-		Rule: "every token of the d<=1 option universe x algorithm, plus tokens with fields of 600, 1023, 1024, 5120 and 70000 bytes: CID of ToSealed, of ToSealedWriter (vs the bytes the sink received), of FromSealed and FromSealedReader (generic and typed, 6 chunkings) all equal 01 71 12 20 || sha256(bytes) computed with crypto/sha256; non-trivial = constructor-accepted tokens",
+		Rule: "every token of the d<=1 option universe x algorithm, plus tokens with fields of 600, 1023, 1024, 5120 and 70000 bytes and the size-threshold tokens of C07 (one field grown to 23..4096, two of them to 65536): CID of ToSealed, of ToSealedWriter (vs the bytes the sink received), of FromSealed and FromSealedReader (generic and typed, 6 chunkings) all equal 01 71 12 20 || sha256(bytes) computed with crypto/sha256; non-trivial = constructor-accepted tokens",
 		Bound: func(t string) string {
 			return "d<=1 option deviations, 4 (quick) / 7 (thorough) algorithms, 6 chunkings"
 		},
@@ -90,6 +90,19 @@ func c08HashSub() *engine.Sub {
 			}
 			if !emit(&c07Case{Spec: TokSpec{Kind: "inv", Alg: "p256", Opts: map[string]string{"args": "k=str-5k", "meta": "k=bytes-70k"}}}) {
 				return
+			}
+			// one field grown to a size on either side of the buffer / head-width thresholds
+			for _, kind := range []string{"dlg", "inv"} {
+				for _, f := range SizeFields(kind) {
+					for _, n := range SizesFor(f, "quick") {
+						if n > 4096 && tier != "thorough" && f != "meta-bytes" && f != "arg-str" {
+							continue
+						}
+						if !emit(&c07Case{Spec: TokSpec{Kind: kind, Alg: "ed25519", Opts: map[string]string{"size:" + f: fmt.Sprint(n), "nonce": "12"}}}) {
+							return
+						}
+					}
+				}
 			}
 		},
 		NewCase: func() any { return &c07Case{} },
